@@ -3,15 +3,16 @@
    what the emitted compile-time assertions mean (tie: derivefam correspondence with real rustc
    verdicts, every run); Model/ReprC.v is the reference's repr(C) layout (validated against
    size_of / align_of / offset_of! every run).
-   C05_sound carries the proviso that the type's name does not capture the helper type of the
-   padding assertion; C05_name_capture_refuted shows the statement is false without it — the
-   genuine defect of the pinned derive (known_findings.json). *)
+   The pinned derive emitted its padding assertion through a local helper struct whose name a user
+   type could capture (genuine defect, repaired by a "fix:" commit, known_findings.json):
+   C05_name_capture_refuted keeps the witness against the pinned assertion and shows the repaired
+   one refuses it; C05_sound is stated without any proviso on names. *)
 From Coq Require Import NArith List Bool.
 From BM Require Import Model.ReprC Model.DeriveStruct.
 Open Scope N_scope.
 
 Theorem C05_sound : forall dv d sz,
-  sd_captures_padding_name d = false -> aligns_pos d -> rustc_size d sz ->
+  aligns_pos d -> rustc_size d sz ->
   derive_accepts dv d sz = true -> contract_ok dv d sz = true.
 Proof. exact accepts_sound. Qed.
 
@@ -33,8 +34,9 @@ Proof. exact packed1_no_padding. Qed.
 Theorem C05_name_capture_refuted :
   let sz := lc_size (layout_C 0 0 (map to_fld (sd_fields capture_witness))) in
   sz = 4 /\ total_size capture_witness = 3 /\
-  derive_accepts DPod capture_witness sz = true /\ contract_ok DPod capture_witness sz = false /\
-  derive_accepts DNoUninit capture_witness sz = true /\ contract_ok DNoUninit capture_witness sz = false.
+  padding_assert_passes_pinned capture_witness sz = true /\ contract_ok DPod capture_witness sz = false /\
+  contract_ok DNoUninit capture_witness sz = false /\
+  derive_accepts DPod capture_witness sz = false /\ derive_accepts DNoUninit capture_witness sz = false.
 Proof. exact padding_name_capture_refuted. Qed.
 
 Print Assumptions C05_sound.
